@@ -4,6 +4,7 @@ import (
 	"bytes"
 	"sync"
 
+	"github.com/golang/snappy"
 	"github.com/hydraide/hydraide/app/core/compressor"
 )
 
@@ -15,6 +16,11 @@ var snappyCompressor = compressor.New(compressor.Snappy)
 // if the configured block size has not been reached yet, otherwise the count
 // wraps around and the reader silently drops the surplus entries.
 const MaxEntriesPerBlock = 65535
+
+// maxSnappyExpansion bounds how much larger than its compressed form a block
+// may claim to be. The Snappy format cannot expand data more than about 21x
+// (a 3-byte copy element yields at most 64 bytes).
+const maxSnappyExpansion = 32
 
 // WriteBuffer collects entries before flushing them as a compressed block.
 // It provides efficient batching of writes to minimize I/O operations.
@@ -149,6 +155,16 @@ type Block struct {
 func ParseBlock(header *BlockHeader, compressedData []byte) (*Block, error) {
 	// Validate checksum
 	if !ValidateChecksum(compressedData, header.Checksum) {
+		return nil, ErrCorruptedBlock
+	}
+
+	// The Snappy stream starts with the decompressed length, and the decoder
+	// allocates that much up front. Compare it with the block header and with
+	// what the compressed bytes can possibly expand to before decompressing,
+	// so that a damaged or forged block cannot trigger a huge allocation.
+	declaredLen, err := snappy.DecodedLen(compressedData)
+	if err != nil || uint64(declaredLen) != uint64(header.UncompressedSize) ||
+		uint64(declaredLen) > maxSnappyExpansion*uint64(len(compressedData)) {
 		return nil, ErrCorruptedBlock
 	}
 
